@@ -186,6 +186,15 @@ func compositeSig(cfg *CompositeCfg, opts *BootOptions) map[string]string {
 	if cfg.PlainOwnerHook {
 		sig["hookOwnerRef"] = "plain-to-parent"
 	}
+	if cfg.EchoHook {
+		recreate := false
+		for _, r := range cfg.Children {
+			if strings.Contains(r.Method, "Recreate") {
+				recreate = true
+			}
+		}
+		sig["hookEchoesAnnotations"] = map[bool]string{true: "with-recreate-strategy", false: "true"}[recreate]
+	}
 	return sig
 }
 
